@@ -92,6 +92,13 @@ type Input struct {
 	SigRandao   *uint64     `json:"sig_randao"`
 	Graffiti    string      `json:"graffiti"` // none | err | ok
 	GraffitiVal uint64      `json:"graffiti_val"`
+	// the graffiti as a text of any length (instead of the 32 bytes of graffiti_val), which may hold
+	// the {{CLIENT}} placeholder; node_client: is the proposal provider a NodeClientProvider (a matter
+	// of the service's construction: the first duty's for a whole history), and what does the node
+	// answer: none | err | ok (with node_client_val, any string)
+	GraffitiText  *string `json:"graffiti_text,omitempty"`
+	NodeClient    string  `json:"node_client,omitempty"`
+	NodeClientVal string  `json:"node_client_val,omitempty"`
 	Head        uint64      `json:"head"`
 	Auction     string      `json:"auction"` // none | err | ok
 	Winners     []int       `json:"winners"`
@@ -155,6 +162,8 @@ type Obs struct {
 	RetAbs uint64 `json:"ret_abs"`
 	Cut    Cuts   `json:"cut"`
 	SubCut bool   `json:"sub_cut"`
+	// how often the node was asked for its client string (not compared; counted in the evidence)
+	NodeClientCalls int `json:"node_client_calls,omitempty"`
 }
 
 // a provider that never answers (until the context is done)
@@ -332,6 +341,9 @@ func duties(in *Input) []*Input {
 		} else if o.Auction == "none" {
 			o.Auction = "err"
 		}
+		// one service instance has one proposal provider, and the node behind it is one client: it calls
+		// itself the same for every duty (a client string remembered by the service is no fault)
+		o.NodeClient, o.NodeClientVal = in.NodeClient, in.NodeClientVal
 		o.Others, o.Order = nil, nil
 		ds = append(ds, o)
 	}
@@ -461,7 +473,7 @@ func runSession(t *testing.T, in *Input) []Obs {
 			standardproposer.WithLogLevel(level),
 			standardproposer.WithMonitor(nullmetrics.New()),
 			standardproposer.WithChainTime(mocks.NewChainTime(in.SPE)),
-			standardproposer.WithProposalDataProvider(rt),
+			standardproposer.WithProposalDataProvider(proposalProvider(rt, in)),
 			standardproposer.WithValidatingAccountsProvider(rt),
 			standardproposer.WithExecutionChainHeadProvider(rt),
 			standardproposer.WithProposalSubmitter(rt),
@@ -584,6 +596,7 @@ func runSession(t *testing.T, in *Input) []Obs {
 						o.Ret = o.Submit.At
 					}
 					o.T0, o.Cut, o.SubCut = w.rec.t0, w.rec.cut, w.rec.subCut
+					o.NodeClientCalls = w.rec.nodeClient
 					w.proposing = false
 					w.rec.mu.Unlock()
 					done[k] = true
@@ -678,6 +691,9 @@ func envTerm(in *Input) string {
 		g = "GErr"
 	case "ok":
 		g = App("GOk", N(in.GraffitiVal))
+		if in.GraffitiText != nil {
+			g = graffitiSourceTerm(in)
+		}
 	}
 	a := "ANone"
 	switch in.Auction {
@@ -730,6 +746,9 @@ func eventTerm(e Event) string {
 	case "auction":
 		return App("EAuction", arg(e, 0), arg(e, 1), arg(e, 2))
 	case "proposal":
+		if e.Big != "" {
+			return App("EProposal", arg(e, 0), arg(e, 1), e.Big+"%N", arg(e, 3))
+		}
 		return App("EProposal", arg(e, 0), arg(e, 1), arg(e, 2), arg(e, 3))
 	case "signblock":
 		return App("ESignBlock", arg(e, 0), arg(e, 1), arg(e, 2), arg(e, 3), arg(e, 4), arg(e, 5), Pair(arg(e, 6), arg(e, 7)))
@@ -1177,6 +1196,8 @@ func genDuty(r *Rand, fix func(*Input)) Input {
 			in.Deadline += 1000
 		}
 	}
+	// the bytes of the graffiti (drawn last, from a stream of its own: the rest of the duty is what it was)
+	genGraffitiText(r.Fork(), &in)
 	return in
 }
 
@@ -1422,6 +1443,7 @@ func tagsOf(in *Input) []string {
 	if !in.DoPrepare {
 		tags = append(tags, "hand-made-duty")
 	}
+	tags = append(tags, graffitiTags(in)...)
 	return tags
 }
 
@@ -1458,6 +1480,17 @@ func count(col *Collector, in *Input, o *Obs) {
 	}
 	col.Count(fmt.Sprintf("account:plain=%v", in.Plain))
 	col.Count("graffiti:" + in.Graffiti)
+	for _, tg := range graffitiTags(in) {
+		col.Count(tg)
+	}
+	if o.NodeClientCalls > 0 {
+		col.Count(fmt.Sprintf("observed:node-client-asked=%d", o.NodeClientCalls))
+	}
+	if isNodeClientProvider(in) {
+		col.Count("node-client:" + in.NodeClient)
+	} else {
+		col.Count("node-client:not-a-provider")
+	}
 	col.Count("auction:" + in.Auction)
 	lat := false
 	for _, tg := range in.Tags {
